@@ -1,4 +1,4 @@
-import Log4rsModel.EnvExpand.Model
+import Log4rsModel.EnvExpand.CallSites
 /-
 Executable specification of C19, read off the English statement: ONE left-to-right pass over the
 path. Text is copied; where a well-formed, terminated reference `$ENV{NAME}` to a SET variable
@@ -94,9 +94,85 @@ reference to a set variable -/
 def junctionFree (alnum : Char → Bool) (env : Env) (path : Text) : Bool :=
   junctionFreeSegs alnum env (parse alnum env path)
 
-/-- where the statement puts the file of a call site: the given text (for the roller: the pattern
-with the index filled in) expanded exactly ONCE -/
-def specLocation (alnum : Char → Bool) (env : Env) (site : CallSite) (given : Text) : Text :=
-  specExpand alnum env (site.submitted given)
+/-! ### The call sites: everything happens at the expanded location
+
+The statement's third clause, made executable on the file system of EnvExpand/CallSites.lean
+(`Fs` and its operations are the *environment*; nothing below mentions the model's appender
+states). `loc` is the text of the location; the theorems instantiate it with
+`specExpand given`. -/
+
+/-- the roller's pattern with the index filled in: every `{}`, left to right (own definition, not
+the model's `str::replace`) -/
+def fillIndex (idx : Text) : Text → Text
+  | '{' :: '}' :: rest => idx ++ fillIndex idx rest
+  | c :: rest => c :: fillIndex idx rest
+  | [] => []
+
+/-- archive of slot `i`: the pattern with the index filled in, expanded ONCE. (Reading decision,
+listed as an assumption: index first, expansion second, as the code does.) -/
+def specSlot (alnum : Char → Bool) (env : Env) (pattern : Text) (i : Nat) : Text :=
+  specExpand alnum env (fillIndex (decimal i) pattern)
+
+/-- a file appender at `loc`: its directory exists, the file exists, the descriptor refers to it -/
+def specFileBuild (cwd : Comps) (loc : Text) (fs : Fs) : Outcome FsErr (Comps × Fs) :=
+  bindO (mkParent cwd fs loc) fun fs1 => liftFs (openCreate cwd fs1 loc)
+
+/-- (re)open the log file at `loc` when it is not open -/
+def specWriter (cwd : Comps) (loc : Text) (w : Option (Comps × Nat)) (fs : Fs) :
+    Outcome FsErr (Comps × Nat × Fs) :=
+  match w with
+  | some (fd, len) => .ok (fd, len, fs)
+  | none =>
+    bindO (liftFs (openCreate cwd fs loc)) fun (fd, fs1) => .ok (fd, ((fs1.content fd).getD []).length, fs1)
+
+def specRollingBuild (cwd : Comps) (loc : Text) (fs : Fs) : Outcome FsErr (Option (Comps × Nat) × Fs) :=
+  bindO (mkParent cwd fs loc) fun fs1 =>
+  bindO (specWriter cwd loc none fs1) fun (fd, len, fs2) => .ok (some (fd, len), fs2)
+
+/-- the policy rolls the file AT `loc` -/
+def specProcess (roller : RollerFn) (loc : Text) (w : Option (Comps × Nat)) (len : Nat) (op : AppendOp) (fs : Fs) :
+    Outcome FsErr (Option (Comps × Nat) × Fs) :=
+  if op.rollIf len then bindO (roller loc fs) fun fs' => .ok (none, fs') else .ok (w, fs)
+
+/-- one record of a rolling appender living at `loc` -/
+def specRollingAppend (cwd : Comps) (pre : Bool) (roller : RollerFn) (loc : Text)
+    (w : Option (Comps × Nat)) (op : AppendOp) (fs : Fs) : Outcome FsErr (Option (Comps × Nat) × Fs) :=
+  bindO (specWriter cwd loc w fs) fun (fd, len, fs1) =>
+  if pre then
+    bindO (specProcess roller loc (some (fd, len)) len op fs1) fun (w2, fs2) =>
+    bindO (specWriter cwd loc w2 fs2) fun (fd3, len3, fs3) =>
+    .ok (some (fd3, len3 + op.data.length), fs3.appendTo fd3 op.data)
+  else
+    specProcess roller loc (some (fd, len + op.data.length)) (len + op.data.length) op (fs1.appendTo fd op.data)
+
+def specRollingHistory (cwd : Comps) (pre : Bool) (roller : RollerFn) (loc : Text) :
+    Option (Comps × Nat) → List AppendOp → Fs → Outcome FsErr (Option (Comps × Nat) × Fs)
+  | w, [], fs => .ok (w, fs)
+  | w, op :: ops, fs =>
+    bindO (specRollingAppend cwd pre roller loc w op fs) fun (w', fs') =>
+    specRollingHistory cwd pre roller loc w' ops fs'
+
+/-- shifting archives `name i → name (i+1)`, highest first; the directory of a destination is
+created when it is not the directory of slot `base` -/
+def specShift (cwd : Comps) (name : Nat → Text) (parent0 : Option RPath) : List Nat → Fs → Outcome FsErr Fs
+  | [], fs => .ok fs
+  | i :: rest, fs =>
+    let parent := (rpath (name (i + 1))).parent
+    bindO (if parent != parent0 then
+        (match parent with
+          | some p => liftFs (createDirAll cwd fs p)
+          | none => .ok fs)
+      else .ok fs) fun fs1 =>
+    bindO (liftFs (moveFile cwd fs1 (name i) (name (i + 1)))) fun fs2 =>
+    specShift cwd name parent0 rest fs2
+
+/-- one roll of a fixed window whose slot `i` is the file `name i` -/
+def specRoll (cwd : Comps) (name : Nat → Text) (base count : Nat) : RollerFn :=
+  fun file fs =>
+    if count = 0 then liftFs (removeFileAt cwd fs file)
+    else
+      bindO (mkParent cwd fs (name base)) fun fs1 =>
+      bindO (specShift cwd name (rpath (name base)).parent ((List.range (count - 1)).reverse.map (· + base)) fs1) fun fs2 =>
+      liftFs (moveFile cwd fs2 file (name base))
 
 end Log4rs.EnvExpand
